@@ -190,9 +190,9 @@ func TestC04(t *testing.T) {
 // timeouts elapse in parallel ("batched", DESIGN §5 C05). Submit's 5 s floor is not bypassed.
 var pfOverrun = withProfile(lab.ProfileDefault, func(p *lab.Profile) {
 	p.Name = "overrun"
-	p.MaxPlans, p.MaxBlocks, p.MaxSeqs, p.MaxActs, p.MaxCheckActs = 3, 1, 3, 2, 1
-	p.PGroup, p.PBypass, p.PContFail, p.PGate, p.PPoll, p.PWriteLat, p.PDelay = 20, 0, 0, 0, 0, 0, 0
-	p.PRetry, p.MaxRetries, p.PFailSeqAct, p.PFailCheckAct, p.POverrun = 40, 1, 30, 20, 60
+	p.MaxPlans, p.MaxBlocks, p.MaxSeqs, p.MaxActs, p.MaxCheckActs = 3, 1, 4, 2, 2
+	p.PGroup, p.PBypass, p.PContFail, p.PGate, p.PPoll, p.PWriteLat, p.PDelay = 25, 0, 0, 0, 0, 0, 0
+	p.PRetry, p.MaxRetries, p.PFailSeqAct, p.PFailCheckAct, p.POverrun = 75, 1, 30, 20, 70
 	p.ContDelays = []int{2}
 })
 
